@@ -11,24 +11,24 @@ open DmlcModel DmlcModel.Gen.Split
 
 /-! ### 1. offsets and `filePtrOf` -/
 
-theorem fileOffset_zero (files : List Bytes) : fileOffset files 0 = 0 := by
+private theorem fileOffset_zero (files : List Bytes) : fileOffset files 0 = 0 := by
   simp [fileOffset]
 
-theorem fileOffset_nil (i : Nat) : fileOffset [] i = 0 := by
+private theorem fileOffset_nil (i : Nat) : fileOffset [] i = 0 := by
   simp [fileOffset]
 
-theorem fileOffset_cons_succ (f : Bytes) (fs : List Bytes) (i : Nat) :
+private theorem fileOffset_cons_succ (f : Bytes) (fs : List Bytes) (i : Nat) :
     fileOffset (f :: fs) (i + 1) = f.length + fileOffset fs i := by
   simp [fileOffset]
 
-theorem totalSize_nil : totalSize [] = 0 := by
+private theorem totalSize_nil : totalSize [] = 0 := by
   simp [totalSize, fileOffset]
 
-theorem totalSize_cons (f : Bytes) (fs : List Bytes) :
+private theorem totalSize_cons (f : Bytes) (fs : List Bytes) :
     totalSize (f :: fs) = f.length + totalSize fs := by
   simp [totalSize, fileOffset]
 
-theorem fileOffset_succ (files : List Bytes) (i : Nat) (f : Bytes) (rest : List Bytes)
+private theorem fileOffset_succ (files : List Bytes) (i : Nat) (f : Bytes) (rest : List Bytes)
     (h : files.drop i = f :: rest) :
     fileOffset files (i + 1) = fileOffset files i + f.length := by
   induction files generalizing i with
@@ -43,7 +43,7 @@ theorem fileOffset_succ (files : List Bytes) (i : Nat) (f : Bytes) (rest : List 
       rw [fileOffset_cons_succ, fileOffset_cons_succ, ih j h]
       omega
 
-theorem fileOffset_mono (files : List Bytes) (i : Nat) : fileOffset files i ≤ fileOffset files (i + 1) := by
+private theorem fileOffset_mono (files : List Bytes) (i : Nat) : fileOffset files i ≤ fileOffset files (i + 1) := by
   induction files generalizing i with
   | nil => simp [fileOffset_nil]
   | cons g gs ih =>
